@@ -17,6 +17,9 @@ import (
 const (
 	peersPath    = "spynode/peers"
 	peersVersion = 2
+
+	// maxPeerAddressSize is the largest address accepted when reading peers from storage.
+	maxPeerAddressSize = 1024
 )
 
 // Peer address database. Used to find Tx Peers.
@@ -75,9 +78,6 @@ func (repo *PeerRepository) Load(ctx context.Context) error {
 	if err := binary.Read(buffer, binary.LittleEndian, &count); err != nil {
 		return errors.Wrap(err, "Failed to read peers count")
 	}
-
-	// Reset
-	repo.list = make([]*Peer, 0, count)
 
 	// Parse peers
 	for {
@@ -236,6 +236,10 @@ func readPeer(input io.Reader, version int32) (Peer, error) {
 	var addressSize int32
 	if err := binary.Read(input, binary.LittleEndian, &addressSize); err != nil {
 		return result, err
+	}
+
+	if addressSize < 0 || addressSize > maxPeerAddressSize {
+		return result, errors.New("Invalid peer address size")
 	}
 
 	addressData := make([]byte, addressSize)
